@@ -235,18 +235,21 @@ fn directed_prog(ctx: &mut Ctx, which: usize) -> Prog {
             shape = "repeated-var-over-derived";
             if ctx.chance(3, 4) { items.insert(0, fact("f", &[1])); items.insert(0, fact("e", &[2, 3])); }
             items.push(rule(atom("d", vec![x.clone(), y.clone()]), vec![pos("e", vec![x.clone(), y.clone()]), cmp(x.clone(), ComparisonOp::LessThan, y.clone())]));
-            // (the catalog orders clauses by dependencies, so both clauses depend on `d`; which comes first follows a hash set)
+            // the catalog orders clauses by dependencies (Kahn, FIFO): the second clause of `p` goes through
+            // `z`, which itself needs `d`, so it becomes ready after the first one — the bogus clause is tried first
+            items.push(rule(atom("z", vec![x.clone()]), vec![pos("d", vec![x.clone(), Term::Placeholder])]));
             items.push(rule(atom("p", vec![x.clone()]), vec![pos("f", vec![x.clone()]), pos("d", vec![y.clone(), y.clone()])]));
-            items.push(rule(atom("p", vec![x.clone()]), vec![pos("f", vec![x.clone()]), pos("d", vec![Term::Placeholder, Term::Placeholder])]));
-            idb = vec![("d".into(), 2), ("p".into(), 1)];
+            items.push(rule(atom("p", vec![x.clone()]), vec![pos("f", vec![x.clone()]), pos("z", vec![y.clone()])]));
+            idb = vec![("d".into(), 2), ("z".into(), 1), ("p".into(), 1)];
         }
         13 => { // first clause refuted only by a *derived* negated fact, second clause is the real reason
             shape = "neg-derived-first-clause";
             if ctx.chance(3, 4) { items.insert(0, fact("f", &[2])); }
             items.push(rule(atom("dr", vec![y.clone()]), vec![pos("f", vec![y.clone()])]));
+            items.push(rule(atom("dr2", vec![y.clone()]), vec![pos("dr", vec![y.clone()])]));
             items.push(rule(atom("p", vec![x.clone()]), vec![pos("f", vec![x.clone()]), neg("dr", vec![x.clone()])]));
-            items.push(rule(atom("p", vec![x.clone()]), vec![pos("dr", vec![x.clone()])]));
-            idb = vec![("dr".into(), 1), ("p".into(), 1)];
+            items.push(rule(atom("p", vec![x.clone()]), vec![pos("dr2", vec![x.clone()])]));
+            idb = vec![("dr".into(), 1), ("dr2".into(), 1), ("p".into(), 1)];
         }
         _ => { // two-level positive: q(X) <- p(X); p from a join
             shape = "two-level";
